@@ -482,6 +482,11 @@ class INT:
             lo, hi, tz = self.rng(a)
             m = (1 << INT_W[a.ty]) - 1
             return self.mkint(m - self.term(a), a.ty, m - hi, m - lo)
+        if op == "Neg" and is_signed(a.ty):
+            lo, hi, tz = self.rng(a) if not (isinstance(a.v, Sym) and a.v.lo is None) else (-(1 << (INT_W[a.ty] - 1)), (1 << (INT_W[a.ty] - 1)) - 1, 0)
+            if lo <= -(1 << (INT_W[a.ty] - 1)):
+                raise Unsupported("INT: negation of %s may overflow" % a.ty)
+            return Sc(Sym(-self.term(a), -hi, -lo, 0), a.ty) if lo != hi else Sc(-lo, a.ty)
         raise Unsupported("INT unop %s on %s" % (op, a.ty))
 
     def cast(self, v, ty):
@@ -499,6 +504,10 @@ class INT:
                 rlo, rhi, _ = self.rng(r)
                 if rhi < (1 << (INT_W[ty] - 1)):
                     return Sc(r.v, ty)
+            if is_signed(v.ty) and not is_signed(ty) and INT_W[ty] >= INT_W[v.ty]:
+                # sign-extending reinterpretation: negative values wrap to the top of the unsigned range
+                x = self.term(v)
+                return Sc(Sym(z3.If(x >= 0, x, x + (1 << INT_W[ty])), 0, (1 << INT_W[ty]) - 1, 0), ty)
             raise Unsupported("INT: signed cast %s -> %s" % (v.ty, ty))
         w1 = INT_W[ty]
         if hi < (1 << w1):
